@@ -63,6 +63,18 @@ fn quiet_panics() {
 
 /// Run a scenario on a thread with a main-thread sized stack, under a watchdog.
 /// Returns None if the run did not finish within `limit` (hang).
+fn process_cpu_secs() -> f64 {
+    let mut ts = libc::timespec {
+        tv_sec: 0,
+        tv_nsec: 0,
+    };
+    unsafe { libc::clock_gettime(libc::CLOCK_PROCESS_CPUTIME_ID, &mut ts) };
+    ts.tv_sec as f64 + ts.tv_nsec as f64 * 1e-9
+}
+
+/// `limit` is a budget of CPU time consumed by this process while the run is in progress (the
+/// worker runs one scenario at a time), so a loaded machine does not turn slow runs into "hangs".
+/// A run that burns no CPU (deadlock) is caught by a wall-clock bound of 15x the limit.
 fn run_guarded(sc: &Scenario, keep_log: bool, limit: Duration) -> Option<run::Outcome> {
     let sc2 = sc.clone();
     let (tx, rx) = std::sync::mpsc::channel();
@@ -73,7 +85,19 @@ fn run_guarded(sc: &Scenario, keep_log: bool, limit: Duration) -> Option<run::Ou
             let _ = tx.send(o);
         })
         .unwrap();
-    rx.recv_timeout(limit).ok()
+    let cpu0 = process_cpu_secs();
+    let t0 = Instant::now();
+    loop {
+        match rx.recv_timeout(Duration::from_millis(500)) {
+            Ok(o) => return Some(o),
+            Err(std::sync::mpsc::RecvTimeoutError::Disconnected) => return None,
+            Err(std::sync::mpsc::RecvTimeoutError::Timeout) => {
+                if process_cpu_secs() - cpu0 > limit.as_secs_f64() || t0.elapsed() > limit * 15 {
+                    return None;
+                }
+            }
+        }
+    }
 }
 
 fn write_replay(dir: &str, name: &str, rf: &ReplayFile) -> String {
@@ -103,7 +127,7 @@ fn worker(args: &[String]) -> i32 {
     let hang_limit = Duration::from_secs(
         arg(args, "--hang-secs")
             .map(|s| s.parse().unwrap())
-            .unwrap_or(120),
+            .unwrap_or(240),
     );
     let inflight = format!("{out_dir}/inflight/{prop}-{}-{shard}.json", tier_name(tier));
     std::fs::create_dir_all(format!("{out_dir}/inflight")).ok();
@@ -139,7 +163,7 @@ fn worker(args: &[String]) -> i32 {
                     oracle: "no_hang".into(),
                     task: 0,
                     step: 0,
-                    detail: format!("run did not finish within {}s", hang_limit.as_secs()),
+                    detail: format!("run did not finish within {}s of CPU time", hang_limit.as_secs()),
                     signature: "hang".into(),
                 };
                 let path = write_replay(
